@@ -28,6 +28,12 @@ CLAIMED = {
          "(six kinds the optimizer rewrites) and constant arithmetic after ternary/if joins; 16 templates whose integer literals are symbolic in [0,70000] (injected at AST level), so the inline limit 65534 and every fold condition are decided by the solver.", "4 C03"),
  "C04": ("Bounded symbolic execution of the reflection layer: a struct with one field per supported kind (all leaf values symbolic, slices of length <= 2/3, two field orders, by value and by pointer), shadowing variables, unknown names, legacy $ prefix; "
          "a struct with 14 unsupported kinds (Run and Execute must not panic, no nil object); JSON-shaped nested maps; two consecutive runs on different objects.", "4 C04"),
+ "C06": ("Bounded symbolic execution of 13 scope scenarios (parameter / local / foreach variable clashing with globals a and b, global assignment inside a callee, early return from foreach / while / switch / two nested loops inside a function, call before definition, recursion depth <= 3 driven by a symbolic argument, nested calls with equally named parameters, top-level loop variable) with symbolic integers and array contents, compared with a reference interpreter that implements the statement's scoping rules; "
+         "plus wrong arity, unknown function and built-in-wins cases.", "4 C06"),
+ "C07": ("Histories as symbolic inputs: a script whose fault path is selected by the object's field (division by zero two calls deep, panic(), arity mismatch, unknown function, early return from nested loops in a function, constant-pool literal increment, local/foreach clash) and whose top-level loop returns early for one field value "
+         "is run on k = 2 (quick) / 3 objects with symbolic fields - the solver chooses which runs fault - and then on one more object; a freshly prepared evaluator given the same persistent variables must agree on result, error, host calls and variables, and the number of open scopes must not grow.", "4 C07"),
+ "C15": ("Bounded symbolic execution of copy-then-mutate programs (assignment, parameter, array element, loop variable, object field; ++ -- += -= *= /=) with an integer literal that is symbolic in [0,70000] (AST-level), float and string literals, bodies in a loop and over two runs, compared with a value-semantics reference interpreter; "
+         "host object given to SetVariable must not change.", "4 C15"),
 }
 
 TECH = "bounded symbolic execution of the repository's go/ssa (own SSA interpreter fork) with SMT (z3/cvc5) deciding each path assertion; native replay of models"
